@@ -121,3 +121,47 @@ SEQ_TEXT = ('Theorems (Coq, all lengths / states / histories): the Model refines
 CHECKS = {}
 for pid, pred in (('C01', is_c01), ('C04', is_c04), ('C05', is_c05), ('C06', is_c06), ('C11', is_c11), ('C12', is_c12), ('C18', is_c18)):
     CHECKS[pid] = SeqCheck(pid, pred, SEQ_TEXT % pid)
+
+
+class VariantCheck(SeqCheck):
+    """C13: the same history on {Concurrent, Local} x {Heap, Stack} (split and split_mut), each compared with the one
+    Model after every step, hence with each other; the four implementation outputs are also compared directly."""
+    def suites(self, ctx):
+        if ctx.tier == 'quick': return [('randv', ['randv', ctx.seed, 700, 20, 100])]
+        return [('randv', ['randv', ctx.seed, 12000, 20, 200])]
+
+    def run(self, ctx):
+        seqrun = self.prepare(ctx)
+        if seqrun is None: return ctx.finish('translation_validation', {'explanation': 'build failed'})
+        ok, log = ctx.check_proofs(self.propfiles)
+        collect = []
+        stats, divs = seqsuite.run(ctx, seqrun, self.suites(ctx), collect=collect)
+        groups = {}
+        for header, cfg, ops, got in collect:
+            m = re.match(r'# randv seed=(\d+) n=(\d+) variant=(\S+)', header)
+            if m: groups.setdefault((m.group(1), m.group(2)), []).append((m.group(3), cfg, ops, got))
+        disagreements = 0; compared = 0
+        for key, vs in groups.items():
+            ref = vs[0]
+            for v in vs[1:]:
+                compared += 1
+                if v[3] != ref[3]:
+                    disagreements += 1
+                    if disagreements == 1:
+                        k = next(i for i, (x, y) in enumerate(zip(ref[3], v[3])) if x != y) if len(ref[3]) == len(v[3]) else min(len(ref[3]), len(v[3]))
+                        txt = '\n'.join(['# C13: variants disagree', ref[1]] + ref[2][:k] + [f'## step {k - 1}: variant {ref[0]} printed: {ref[3][k] if k < len(ref[3]) else "<missing>"}',
+                                         f'## step {k - 1}: variant {v[0]} printed: {v[3][k] if k < len(v[3]) else "<missing>"}', '## second variant:', v[1]])
+                        ctx.violation(f'buffer variants {ref[0]} and {v[0]} give different observable results on the same history', txt)
+        if not ctx.violations:
+            self.decide(ctx, divs, not ok, log)
+        cov = {'programs': len(groups), 'disagreements_checked': compared,
+               'samples': stats.samples, 'evaluations': stats.steps, 'distinct_nontrivial': len(stats.distinct),
+               'input_distribution': stats.summary(), 'variant_disagreements': disagreements, 'model_divergences': len(divs),
+               'explanation': self.text,
+               'obligations': ctx.obligations, 'discharged': ctx.discharged, 'checker_cmd': ' ; '.join(ctx.checker_cmds), 'trusted_base': common.TRUSTED_BASE}
+        return ctx.finish('translation_validation', cov)
+
+CHECKS['C13'] = VariantCheck('C13', lambda d: True,
+    'One Model for all variants: every history is run on ConcurrentHeapRB, LocalHeapRB, ConcurrentStackRB, LocalStackRB (split and split_mut) and compared, '
+    'step by step, with the Model and with the other variants. Theorems: the Model has a single step function (Props/C13.v states what is proved at model level).',
+    propfiles=['Props/C13.v'])
